@@ -287,13 +287,17 @@ MustFailATest(src) ==
   \/ (HasValidateBlock(src) /\ "Default" \in D /\ OpDfl(src) = "invalid")
 
 \* OPERATIONAL: the generated tests and their results (common/gen/tests.rs, string/gen/tests.rs):
-\* `assert!(upper >= lower)` whatever the exclusivity; `T::default()` then try_new of its inner value
+\* `assert!(upper > lower)` when a side is exclusive, else `assert!(upper >= lower)` (since the fix; before it
+\* `>=` whatever the exclusivity); `T::default()` then try_new of its inner value
 OpTests(src) ==
   LET val == OpVal(src) D == NRange(OpDer(src))
       lows == Rules(val, LowerKinds) ups == Rules(val, UpperKinds)
       bounds == IF src.fam \in {"int", "float"} /\ HasValidateBlock(src) /\ ValShape(src.fam, val) = "std" /\ lows # {} /\ ups # {}
                 THEN {<<"should_have_consistent_lower_and_upper_boundaries",
-                        IF \E i \in lows : \E j \in ups : val[j].b < val[i].b THEN "FAILED" ELSE "ok">>}
+                        IF \E i \in lows : \E j \in ups :
+                              \/ val[j].b < val[i].b
+                              \/ (val[j].b = val[i].b /\ \E k \in lows \cup ups : val[k].w \in {"greater", "less"})
+                        THEN "FAILED" ELSE "ok">>}
                 ELSE {}
       lens == IF src.fam = "string" /\ HasValidateBlock(src) /\ ValShape(src.fam, val) = "std"
                  /\ Rules(val, {"len_char_min"}) # {} /\ Rules(val, {"len_char_max"}) # {}
